@@ -191,14 +191,26 @@ fn gen_pred(r: &mut Rng, scn: &Scenario) -> Pred {
     Pred::Ids(ids)
 }
 
+/// sources of the value properties: one scenario in seven uses a std collection (by value or by reference)
+pub fn with_collections(r: &mut Rng) -> Vec<Src> {
+    if r.chance(1, 7) {
+        Src::COLLECTIONS.to_vec()
+    } else {
+        Src::ALL_FINITE.to_vec()
+    }
+}
+
 fn base(seed: u64, r: &mut Rng, max_len: usize, max_depth: usize, srcs: &[Src]) -> Scenario {
     let len = gen_len(r, max_len);
     let vals = gen_vals(r, len);
+    let src0 = *r.pick(srcs);
+    // each std collection is its own iterator type: chains of at most one stage are instantiated for them
+    let max_depth = if src0.is_collection() { max_depth.min(1) } else { max_depth };
     let ops = gen_ops(r, max_depth);
     let (policy, noise, release) = gen_policy(r);
     let mut scn = Scenario {
         seed,
-        src: *r.pick(srcs),
+        src: src0,
         vals,
         ops,
         nt: vec![],
@@ -269,8 +281,8 @@ fn fit_depth(scn: &mut Scenario) {
 }
 
 fn gen_with_index(r: &mut Rng, scn: &mut Scenario) {
-    // shapes "", "m", "f", "mf"; Range supports "" and "f"; SliceCloned none
-    if scn.src == Src::SliceCloned {
+    // shapes "", "m", "f", "mf"; Range supports "" and "f"; SliceCloned and the std collections none
+    if scn.src == Src::SliceCloned || scn.src.is_collection() {
         scn.src = Src::Vec;
     }
     let shapes: &[&str] = if scn.src == Src::Range { &["", "f"] } else { &["", "m", "f", "mf"] };
@@ -288,7 +300,7 @@ fn gen_with_index(r: &mut Rng, scn: &mut Scenario) {
 pub fn generate(prop: &str, seed: u64) -> Scenario {
     let mut scn = generate_inner(prop, seed);
     // one scenario in sixteen starts from a partially consumed concurrent iterator
-    if matches!(prop, "C01" | "C02" | "C03" | "C04" | "C07") && scn.src != Src::IterEndless {
+    if matches!(prop, "C01" | "C02" | "C03" | "C04" | "C07") && scn.src != Src::IterEndless && !scn.src.is_collection() {
         let mut r = Rng::stream(seed, 0x9AE);
         if r.chance(1, 16) && !scn.vals.is_empty() {
             scn.pre = r.range(1, scn.vals.len().min(6));
@@ -296,6 +308,63 @@ pub fn generate(prop: &str, seed: u64) -> Scenario {
             refresh_pred(&mut r, &mut scn);
             if let Term::FindWithIndex(_) = scn.term {
                 scn.term = Term::FindWithIndex(gen_pred(&mut r, &scn));
+            }
+        }
+    }
+    // one scenario in 120 of the value properties is large (1.1 k .. 6 k elements, chunk sizes beyond 1024), with
+    // closures that are yield points only every 2^k-th event; its verdict needs the returned value only
+    if matches!(prop, "C01" | "C02" | "C03" | "C04" | "C07") && !scn.src.is_collection() && scn.src != Src::IterEndless {
+        let mut r = Rng::stream(seed, 0x1A46E);
+        let ok_term = !matches!(scn.term, Term::ForEach);
+        if r.chance(1, 120) && ok_term && scn.pre == 0 {
+            let n = r.range(1100, 6000);
+            scn.vals = spec_vals(n, r.below(64) as u64);
+            scn.quiet = r.range(4, 6) as u8;
+            if scn.src == Src::SliceCloned {
+                scn.src = Src::Vec;
+            }
+            if r.chance(2, 3) {
+                let c = *r.pick(&[1025usize, 1500, 2048, 3000, 4096]);
+                scn.cs = vec![(0, if r.chance(1, 2) { Chunk::Exact(c) } else { Chunk::Min(c) })];
+            }
+            match &scn.term {
+                Term::Find(_) | Term::Any(_) | Term::All(_) | Term::FindWithIndex(_) => {
+                    // two or three matches far apart: different chunks, the first one deep inside its chunk
+                    let mut tmp = scn.clone();
+                    tmp.term = Term::Count;
+                    let rf = reference(&tmp);
+                    let m = rf.finals.len();
+                    let mut ids = vec![];
+                    if m > 0 {
+                        let a = r.below(m);
+                        ids.push(rf.finals[a].1.id);
+                        if r.chance(3, 4) {
+                            ids.push(rf.finals[(a + m / 3 + r.below(m / 3 + 1)).min(m - 1)].1.id);
+                        }
+                        if r.chance(1, 3) {
+                            ids.push(rf.finals[r.below(m)].1.id);
+                        }
+                    }
+                    ids.sort();
+                    ids.dedup();
+                    let p = Pred::Ids(ids);
+                    scn.term = match &scn.term {
+                        Term::Find(_) => Term::Find(p),
+                        Term::Any(_) => Term::Any(p),
+                        Term::FindWithIndex(_) => Term::FindWithIndex(p),
+                        _ => {
+                            // all: everything but the chosen ids passes
+                            let keep: Vec<u64> = match &p {
+                                Pred::Ids(x) => x.clone(),
+                                _ => vec![],
+                            };
+                            let mut all: Vec<u64> = rf.finals.iter().map(|f| f.1.id).filter(|id| !keep.contains(id)).collect();
+                            all.sort();
+                            Term::All(Pred::Ids(all))
+                        }
+                    };
+                }
+                _ => {}
             }
         }
     }
@@ -307,7 +376,8 @@ fn generate_inner(prop: &str, seed: u64) -> Scenario {
     let r = &mut r;
     match prop {
         "C01" => {
-            let mut scn = base(seed, r, 300, 3, &Src::ALL_FINITE);
+            let srcs = with_collections(r);
+            let mut scn = base(seed, r, 300, 3, &srcs);
             scn.term = match r.below(10) {
                 0..=3 => Term::CollectVec,
                 4..=5 => Term::Collect,
@@ -317,7 +387,8 @@ fn generate_inner(prop: &str, seed: u64) -> Scenario {
             scn
         }
         "C02" => {
-            let mut scn = base(seed, r, 300, 3, &Src::ALL_FINITE);
+            let srcs = with_collections(r);
+            let mut scn = base(seed, r, 300, 3, &srcs);
             match r.below(10) {
                 0..=3 => scn.term = Term::Find(gen_pred(r, &scn)),
                 4 => scn.term = Term::First,
@@ -349,7 +420,8 @@ fn generate_inner(prop: &str, seed: u64) -> Scenario {
             scn
         }
         "C03" => {
-            let mut scn = base(seed, r, 300, 3, &Src::ALL_FINITE);
+            let srcs = with_collections(r);
+            let mut scn = base(seed, r, 300, 3, &srcs);
             scn.term = match r.below(14) {
                 0..=4 => Term::Reduce(gen_red(r)),
                 5 => Term::Fold(gen_red(r)),
@@ -366,7 +438,8 @@ fn generate_inner(prop: &str, seed: u64) -> Scenario {
             scn
         }
         "C04" => {
-            let mut scn = base(seed, r, 300, 3, &Src::ALL_FINITE);
+            let srcs = with_collections(r);
+            let mut scn = base(seed, r, 300, 3, &srcs);
             scn.term = if r.chance(1, 2) { Term::Count } else { Term::ForEach };
             scn
         }
@@ -390,13 +463,18 @@ fn generate_inner(prop: &str, seed: u64) -> Scenario {
             scn
         }
         "C07" => {
-            let mut scn = base(seed, r, 300, 3, &Src::ALL_FINITE);
+            let srcs = with_collections(r);
+            let mut scn = base(seed, r, 300, 3, &srcs);
             scn.term = Term::CollectX;
             scn
         }
         "C05" => {
             // iterator sources twice as often: the source clause only speaks about them
-            let srcs = [Src::Vec, Src::SliceCloned, Src::Range, Src::IterExact, Src::IterUnknown, Src::IterExact, Src::IterUnknown];
+            let srcs: Vec<Src> = if r.chance(1, 8) {
+                Src::COLLECTIONS.to_vec()
+            } else {
+                vec![Src::Vec, Src::SliceCloned, Src::Range, Src::IterExact, Src::IterUnknown, Src::IterExact, Src::IterUnknown]
+            };
             let mut scn = base(seed, r, 200, 3, &srcs);
             scn.term = gen_any_term(r, &scn);
             fit_depth(&mut scn);
@@ -448,7 +526,8 @@ fn generate_inner(prop: &str, seed: u64) -> Scenario {
             scn
         }
         "C13" => {
-            let mut scn = base(seed, r, 200, 3, &Src::ALL_FINITE);
+            let srcs = with_collections(r);
+            let mut scn = base(seed, r, 200, 3, &srcs);
             scn.term = gen_any_term(r, &scn);
             // find on a prefix: the untouched remainder must still be dropped
             if r.chance(1, 4) {
@@ -714,7 +793,7 @@ pub fn all_fault_sites(scn: &Scenario, rf: &crate::reference::Ref) -> Vec<Fault>
             sites.push(Fault { stage: c.0, trigger: Trigger::Arg(c.1) });
         }
     }
-    if scn.src == Src::SliceCloned {
+    if scn.src.clones() {
         for id in &rf.clones {
             sites.push(Fault { stage: STAGE_CLONE, trigger: Trigger::Arg(*id) });
         }
@@ -795,7 +874,8 @@ fn gen_c14_enum(seed: u64) -> Scenario {
 }
 
 fn gen_c14(seed: u64, r: &mut Rng) -> Scenario {
-    let mut scn = base(seed, r, 64, 3, &Src::ALL_FINITE);
+    let srcs = with_collections(r);
+    let mut scn = base(seed, r, 64, 3, &srcs);
     if r.chance(2, 3) {
         // small inputs: every (stage, position) is reached densely
         let n = r.range(1, 24);
